@@ -368,6 +368,19 @@ def conditions(tier):
                   'vs the documented acceptance rule incl. returned signature data',
             bounds=f'{4 if full else 3} lines over {len(VOCAB)} keywords (+absent), exit '
                    'status -2..3; first line fixed per condition'))
+    if not full:
+        # four lines in the quick tier too, behind an accepting first signature: what follows
+        # the first TRUST_ line (a second signature's report) still counts
+        for l3 in (10, 11, 12):
+            fixed = {'l1': 1, 'l2': 7, 'l3': l3}
+            cs.append(Cond(
+                f'k_status_after_{VOCAB[l3].split()[0].decode().lower()}',
+                specialise(k_status, **fixed), specialise(k_status_pre, **fixed),
+                timeout=300, group='status', twin=False,
+                descr='the same after GOODSIG, VALIDSIG and an accepted TRUST_ line: every '
+                      'fourth status line (e.g. the expired/revoked-key report of a second '
+                      'signature) with every exit status',
+                bounds=f'fourth line over {len(VOCAB)} keywords (+absent), exit status -2..3'))
     cs.append(Cond('k_spawn', k_spawn, k_spawn_pre, timeout=120, group='spawn',
                    descr='_spawn_gpg: non-zero exit raises the requested class; missing '
                          'binary raises OpenPGPNoImplementation',
